@@ -62,7 +62,7 @@ def fixed_cfg(rng, drop_cli=None, drop_srv=None, mtu=None, slow=False, nat=False
     return c
 
 
-def connect(rng, P, cfg, port, srv, cli, sip=None, style=None, a=None, ss=None, cs=None, ctx="top", bind_cli=None, close_first=False):
+def connect(rng, P, cfg, port, srv, cli, sip=None, style=None, a=None, ss=None, cs=None, ctx="top", bind_cli=None, close_first=False, move_p=0.0, new_p=0.0):
     """acceptor (new unless given) + accept into ss + connect of cs; returns names and handler contexts"""
     sip = sip or rng.choice(cfg.v4(srv))
     new_acc = a is None
@@ -81,14 +81,24 @@ def connect(rng, P, cfg, port, srv, cli, sip=None, style=None, a=None, ss=None, 
         cs = P.sock(); P.do("top", "%s.new %s" % (cs, cli))
     hacc = P.h(); hcon = P.h()
     style = style or rng.choice(["accept", "accept_ep", "accept_ep"])
-    if close_first: P.do(ctx, "%s.close" % ss)
+    fresh = False
+    if rng.random() < new_p:
+        # socket-returning overload: the accepted socket is a new object, move-constructed into place
+        style = "accept_new"; ss = P.sock(); fresh = True
+    if close_first and style != "accept_new": P.do(ctx, "%s.close" % ss)
     P.do(ctx, "%s.%s %s h%d" % (a, style, ss, hacc))
     if bind_cli is not None:
         P.do(ctx, "%s.open v4" % cs); P.do(ctx, "%s.bind %s" % (cs, ep(bind_cli, 0)))
     P.do(ctx, "%s.connect %s h%d" % (cs, ep(sip, port), hcon))
+    # a connected socket moved to another object (before anything is started on it) is the same connection
+    if rng.random() < move_p:
+        n = P.sock(); P.do("h%d" % hcon, "%s.move %s" % (cs, n)); cs = n
+    moved = False
+    if rng.random() < move_p:
+        n = P.sock(); P.do("h%d" % hacc, "%s.move %s" % (ss, n)); ss = n; moved = True
     for c, s in (("h%d" % hcon, cs), ("h%d" % hacc, ss)):
         P.do(c, "%s.local" % s); P.do(c, "%s.remote" % s)
-    return dict(a=a, ss=ss, cs=cs, hacc="h%d" % hacc, hcon="h%d" % hcon, sip=sip, port=port)
+    return dict(a=a, ss=ss, cs=cs, hacc="h%d" % hacc, hcon="h%d" % hcon, sip=sip, port=port, fresh=fresh, moved=moved)
 
 
 def writer(rng, P, s, ctx, stream, total, sizes, bufs=(1, 1, 2, 3)):
